@@ -436,3 +436,149 @@ def _short(m):
             return f"{v.get('name')}({', '.join(sh(a) for a in v.get('args', []))})"
         return repr(e)
     return sh(m)[:160]
+
+
+# ------------------------------------------------------------------------------------------------ error positions (C06)
+ERROR_BASE = [
+    "# a comment line",
+    "x = 1",
+    "",
+    "function f(a, b):",
+    "    y = a + b",
+    "    if {E:y > 1}:",
+    "        return {E:y}",
+    "    elif {E:y}:",
+    "        y = {E:2}",
+    "    endif",
+    "    while {E:a < 3}:",
+    "        a = a + 1",
+    "    endwhile",
+    "    for v, i in {E:arrayNew(1, 2)}:",
+    "        systemLog({E:v})",
+    "    endfor",
+    "    return a",
+    "endfunction",
+    "z = f(1, \\",
+    "    2)",
+    "w = {E:z * 2}",
+    "{E:systemLog(w)}",
+]
+FAULTS = ['$', 'a + $', 'f(1, $ 2)', '(a $)', "'abc' $ b", 'a +', '1 2']
+
+
+def _fill(lines, fault_at=None, fault=None):
+    out = []
+    k = 0
+    for ln in lines:
+        while '{E:' in ln:
+            i = ln.index('{E:')
+            j = ln.index('}', i)
+            rep = fault if k == fault_at else ln[i + 3:j]
+            ln = ln[:i] + rep + ln[j + 1:]
+            k += 1
+        out.append(ln)
+    return out, k
+
+
+def run_error_positions(repo, tier='quick', rule='E6p'):
+    """parse_script AND parse_expression evaluated on concrete programs with one faulty expression: the error is a BareScriptParserError that carries the text of the faulty line, a
+    column at the first character that cannot continue the expression, and the 1-based number of the line; prepending lines / a start line number shift exactly that number; a block left
+    open, a deleted closing keyword and a final continuation backslash are rejected -> (n, problems [(kind, message)])"""
+    mod = repo.module('parser')
+    func = mod.funcs.get('parse_script')
+    if func is None:
+        raise Unrecognised(rule, 'parse_script not found', mod.rel)
+    it = Interp(mod, rule)
+    it.repo = repo
+    it.max_depth = 60
+    it.concrete_parse = True
+    it.concrete_asserts = True
+    problems, n = [], 0
+
+    def parse(text, *extra):
+        it.depth = 0
+        it._lazy = {k: v for k, v in it._lazy.items() if not isinstance(v, (ADict, AList))}
+        try:
+            return ('ok', it.call_function(func, [text] + list(extra), func))
+        except RaiseSig as sig:
+            return ('error', sig.cls, tuple(sig.args_))
+    good, slots = _fill(ERROR_BASE)
+    base = parse('\n'.join(good) + '\n')
+    n += 1
+    if base[0] != 'ok':
+        problems.append(('rejected', f'the well-formed base program is rejected: {base[1]}{base[2][:2]!r}'[:300]))
+        return n, problems
+    faults = FAULTS if tier == 'thorough' else FAULTS[:5]
+    for slot in range(slots):
+        for fault in faults:
+            lines, _k = _fill(ERROR_BASE, slot, fault)
+            # the faulty line and the column of the first character that cannot continue an expression there
+            bad_ix = next(i for i, (a, b) in enumerate(zip(lines, good)) if a != b)
+            bad = lines[bad_ix]
+            # the column lies inside the faulty expression, not after the first character that cannot continue it (which token of the expression it names is the parser's choice)
+            lo = next(i for i, (c1, c2) in enumerate(zip(bad, good[bad_ix] + '\0' * len(bad))) if c1 != c2) + 1
+            lo = min(lo, bad.index(fault) + 1)
+            if '$' in fault:
+                hi = bad.index('$') + 1
+            elif fault == 'a +':
+                hi = len(bad) + 1       # the expression ends too early
+            else:
+                hi = bad.index('1 2') + 3      # the second operand
+            first_col = None
+            whole_line = bad[:lo - 1].strip() == ''         # an expression statement: the expression text is the whole line, leading blanks included
+            if whole_line:
+                lo = 1
+            for prefix, start, indent in (([], None, 0), (['# c', '', 'q = 1'], None, 0), ([], 10, 0), ([], None, 3)):
+                if indent and whole_line:
+                    continue
+                n += 1
+                if indent:
+                    bad_i = ' ' * indent + bad
+                    text = '\n'.join(lines[:bad_ix] + [bad_i] + lines[bad_ix + 1:]) + '\n'
+                else:
+                    bad_i = bad
+                    text = '\n'.join(prefix + lines) + '\n'
+                got = parse(text) if start is None else parse(text, start)
+                desc = f'faulty expression {fault!r} in the line {bad.strip()!r}' + (f' after {len(prefix)} prepended lines' if prefix else '') + (f' with start line {start}' if start else '') + \
+                    (f' indented by {indent} more blanks' if indent else '')
+                if got[0] == 'ok':
+                    problems.append(('accepted', f'{desc}: parse_script accepts the program'))
+                    continue
+                if got[1] != 'BareScriptParserError':
+                    problems.append(('host', f'{desc}: parse_script raises {got[1]}{got[2][:1]!r} instead of BareScriptParserError'))
+                    continue
+                a = got[2]
+                if len(a) < 4 or any(isinstance(x, Sym) for x in a[:4]):
+                    raise Unrecognised(rule, f'{desc}: the parser error carries {a!r}'[:200], mod.rel)
+                line, column, lineno = a[1], a[2], a[3]
+                want_no = bad_ix + 1 + len(prefix) + ((start - 1) if start else 0)
+                if line != bad_i:
+                    problems.append(('line', f'{desc}: the error carries the line text {line!r}, not the offending line {bad_i!r}'))
+                elif lineno != want_no:
+                    problems.append(('number', f'{desc}: the error reports line {lineno!r}; the faulty line is line {want_no} (1-based, offset by the start line)'))
+                elif not isinstance(column, int) or isinstance(column, bool) or not (lo + indent <= column <= hi + indent):
+                    problems.append(('column', f'{desc}: the error reports column {column!r}; the faulty expression occupies the columns {lo + indent} .. {hi + indent} of the line '
+                                               f'(up to the first character that cannot continue it)'))
+                elif first_col is None:
+                    first_col = column
+                elif column != first_col + indent:
+                    problems.append(('column', f'{desc}: the error reports column {column}; the same line gave column {first_col} before (lines prepended, a start line number and '
+                                               f'indentation move the position by exactly their amount)'))
+    # blocks left open, deleted closers, a final continuation
+    for desc, drop in (('endif deleted', '    endif'), ('endwhile deleted', '    endwhile'), ('endfor deleted', '    endfor'), ('endfunction deleted', 'endfunction')):
+        n += 1
+        lines = [ln for ln in good if ln != drop]
+        got = parse('\n'.join(lines) + '\n')
+        if got[0] == 'ok':
+            problems.append(('open', f'{desc}: parse_script accepts a program whose block is never closed'))
+        elif got[1] != 'BareScriptParserError':
+            problems.append(('host', f'{desc}: parse_script raises {got[1]} instead of BareScriptParserError'))
+    for desc, text in (('the last line ends in a continuation backslash', 'x = 1\ny = 2 + \\\n'), ('the only line ends in a continuation backslash', 'x = 1 \\'),
+                       ('an if left open at end of input', 'if x:\n    y = 1\n'), ('a function left open inside which an if is closed', 'function f():\n    if x:\n    endif\n')):
+        n += 1
+        got = parse(text)
+        if got[0] == 'ok':
+            problems.append(('open', f'{desc}: parse_script accepts the text'))
+        elif got[1] != 'BareScriptParserError':
+            problems.append(('host', f'{desc}: parse_script raises {got[1]}{got[2][:1]!r} instead of BareScriptParserError'))
+    return n, problems
